@@ -33,18 +33,19 @@ import (
 // workload
 
 type snapInput struct {
-	TMS      string         `json:"tms"`   // "synthetic:<deepest>" or an embedded id
-	IDs      []int          `json:"ids"`   // tile matrix ids as requested (order matters to the caller only)
-	Lattice  [][][2]int64   `json:"rings"` // ring 0 = shell; integer lattice coordinates
-	OX       float64        `json:"origin_x"`
-	OY       float64        `json:"origin_y"`
-	Unit     float64        `json:"lattice_unit"` // 1/8 internal pixel of the deepest requested level
-	Rings    [][][2]float64 `json:"-"`            // = origin + lattice * unit
-	Valid    bool           `json:"valid"`        // generated valid by construction and re-validated exactly
-	Keep     bool           `json:"keep_points_and_lines"`
-	Reverse  bool           `json:"reverse_winding_order"`
-	Shape    string         `json:"shape"`
-	RevRings []int          `json:"reverse_rings,omitempty"` // oracle 3: which input rings to hand over reversed
+	TMS       string         `json:"tms"`   // "synthetic:<deepest>" or an embedded id
+	IDs       []int          `json:"ids"`   // tile matrix ids as requested (order matters to the caller only)
+	Lattice   [][][2]int64   `json:"rings"` // ring 0 = shell; integer lattice coordinates
+	OX        float64        `json:"origin_x"`
+	OY        float64        `json:"origin_y"`
+	Unit      float64        `json:"lattice_unit"` // 1/8 internal pixel of the deepest requested level
+	Rings     [][][2]float64 `json:"-"`            // = origin + lattice * unit
+	Valid     bool           `json:"valid"`        // generated valid by construction and re-validated exactly
+	IgnoreOut bool           `json:"ignore_outside_grid,omitempty"`
+	Keep      bool           `json:"keep_points_and_lines"`
+	Reverse   bool           `json:"reverse_winding_order"`
+	Shape     string         `json:"shape"`
+	RevRings  []int          `json:"reverse_rings,omitempty"` // oracle 3: which input rings to hand over reversed
 }
 
 type fakeCRS struct{}
@@ -217,6 +218,24 @@ func genInput(seed uint64) snapInput {
 			}
 			rings = append(rings, hole)
 		}
+		in.Valid = false
+	}
+	if r.Chance(0.05) {
+		// partly outside the grid, with the ignore flag: the answer (nothing) must not depend on
+		// anything either. Vertices keep clear of the one-pixel band just outside the edge,
+		// where the library does not recognise them as outside (another property's business).
+		in.IgnoreOut = true
+		shift := cx + size/2
+		band := int64(g.pix[deep]/unit) * 3
+		for ri := range rings {
+			for vi := range rings[ri] {
+				rings[ri][vi][0] -= shift
+				if x := rings[ri][vi][0]; x < 0 && x > -band {
+					rings[ri][vi][0] = -band
+				}
+			}
+		}
+		in.Shape += "/partly-outside"
 		in.Valid = false
 	}
 	if in.Valid && !simplePolygon(rings) {
@@ -477,7 +496,7 @@ func call(in *snapInput, ids []int, rings [][][2]float64, reverseFlag bool) (res
 			res.panicMsg = fmt.Sprint(r)
 		}
 	}()
-	cfg := snap.Config{KeepPointsAndLines: in.Keep, IgnoreOutsideGrid: false, ReverseWindingOrder: reverseFlag}
+	cfg := snap.Config{KeepPointsAndLines: in.Keep, IgnoreOutsideGrid: in.IgnoreOut, ReverseWindingOrder: reverseFlag}
 	res.byID = snap.SnapPolygon(toPolygon(rings), loadTMS(in.TMS), append([]int(nil), ids...), cfg)
 	return res
 }
